@@ -62,7 +62,8 @@ impl Qcow2Info {
                     (b, s >> b)
                 }
                 None => {
-                    let bits = 12_u8;
+                    // a slice can't be bigger than the cluster it lives in
+                    let bits = std::cmp::min(12_u8, cluster_shift);
                     let cnt = std::cmp::max(default_bytes >> bits, 2);
 
                     (bits, cnt)
